@@ -724,9 +724,16 @@ impl Server for GitSyncServer {
                 self.reset_to_remote()?;
                 self.read_meta()?;
                 // A push can report failure although the remote did take it (the connection
-                // broke after the branch was updated): the version is then the remote's latest
-                // one and has been accepted, so it must not be reported as rejected.
-                if self.meta.latest_version == version_id {
+                // broke after the branch was updated): the version's file is then part of the
+                // remote state just taken over - whether or not other versions have been added
+                // on top of it since - and the version has been accepted, so it must not be
+                // reported as rejected.
+                let version_file = self.local_path.join(format!(
+                    "v-{}-{}",
+                    parent_version_id.simple(),
+                    version_id.simple()
+                ));
+                if version_file.exists() {
                     break;
                 }
                 // The remote may have moved for another reason than a new version (a snapshot
